@@ -100,9 +100,9 @@ def get_item(ex, ctx, st, obj, key, node):
         el = z3.Select(ex.heap_get(st, "$elems"), obj.t)
         from . import types as T
         if ctx.branch(z3.And(key.t >= 0, key.t < n)):
-            return T.elem(ex, ctx, st, obj, simp(z3.Select(el, key.t)))
+            return T.elem(ex, ctx, st, obj, simp(z3.Select(el, key.t)), key.t)
         if ctx.branch(z3.And(key.t < 0, key.t >= -n)):
-            return T.elem(ex, ctx, st, obj, simp(z3.Select(el, n + key.t)))
+            return T.elem(ex, ctx, st, obj, simp(z3.Select(el, n + key.t)), n + key.t)
         ex.raise_(st, "IndexError", node)
     if kind == "dict":
         key = hashable_key(ex, ctx, st, key, node)
